@@ -7,11 +7,18 @@ the returned node_ids and the final formulae tables are compared with core/Manag
 Coq.  Property-level oracle (independent of the model): interned structural keys (tocoq.skey's definition), blueprint
 read-backs through the FNode accessors, same-request/same-outcome, copies structurally equal and
 disjoint from the source environment.
+
+Besides the random histories, every run contains MAGNITUDE histories (all documented spellings of a constant / integer
+payload at sizes beyond CPython's small-int cache and beyond machine words, arguments computed at run time so that equal
+ints / strings are distinct objects) and LIFETIME histories (long-lived destination, many short-lived garbage-collected
+sources: object addresses get reused).  The harness itself keeps no id()-keyed entry of a freed node.
 """
+import gc
 import json
 import os
 import random
 import warnings
+import weakref
 from fractions import Fraction
 
 import pysmt.operators as op
@@ -45,7 +52,12 @@ ASSUME = [
     "object addresses (id()) enter the model as an arbitrary injective function; the theorems hold for every such function, "
     "the correspondence feeds the observed order",
 ]
-RULE = ("history = list of constructor calls on 1-3 fresh Environments (about 45 calls each); compared: every returned "
+RULE = ("random histories plus, every run: MAGNITUDE histories (every documented spelling of one constant / payload - int, '#b' string, "
+        "bare bit string, with and without the redundant width, SBV, BVZero/BVOne, shortcuts, infix - at widths 1..4096 and values near 2^w, "
+        "Int/Real/String constants and symbol names as equal-but-not-identical run-time objects: one object, same accessors, no refusal) and "
+        "LIFETIME histories (1-2 long-lived destination environments, 30-60 short-lived garbage-collected source environments with their own "
+        "non-singleton sorts: each copy equals its source, is the node a native build denotes, has target sorts, shares nothing); "
+        "history = list of constructor calls on 1-3 fresh Environments (about 45 calls each); compared: every returned "
         "node_id / error and the complete final formulae table of every environment, model vs implementation; oracle: "
         "skey injectivity over ALL nodes of every table, blueprint read-backs, same request => same outcome, copies; "
         "distinct = distinct (constructor, argument-shape, outcome) triples")
@@ -263,6 +275,12 @@ class Interner(object):
             r = self.tab[k] = len(self.tab)
         return r
 
+    def forget(self, nodes):
+        """the memo is keyed by id(): entries of nodes that are about to be freed must go (addresses are reused)"""
+        for n in nodes:
+            self.memo.pop(id(n), None)
+            self.cmemo.pop(id(n), None)
+
     def key(self, f, canon=False):
         memo = self.cmemo if canon else self.memo
         for n in tocoq.topo([f]):
@@ -285,6 +303,9 @@ class EnvState(object):
         self.pool_ids = set()
         self.norm_dirty = False
         self.outcomes = {}        # request key -> outcome
+        self.denot = {}           # denotation key (e.g. ("BV", value, width)) -> the one object every spelling must return
+        self.released = False
+        self.table_txt = self.addr_txt = None
 
 
 class History(object):
@@ -304,13 +325,17 @@ class History(object):
         self.tainted = [set() for _ in range(nenv)]   # ids built from raw create_node nodes
         self.keys = Interner()
         self.tdm = {}             # id(node) -> type descriptor (computed by the node's own environment)
+        self.pre = []             # script lines to put before the next call (environment creation / deletion)
+        self.lazy = []            # indexes of environments created in the course of the history
+        self.collected = 0        # released source environments that were really garbage-collected
+        self.released_n = 0
 
     # ------------------------------------------------------------------ helpers
     def td(self, n):
         r = self.tdm.get(id(n))
         if r is None:
             for E in self.envs:
-                if E.m.formulae.get(n._content) is n:
+                if not E.released and E.m.formulae.get(n._content) is n:
                     r = self.tdm[id(n)] = tdesc(E.env.stc.get_type(n))
                     break
             else:
@@ -349,7 +374,8 @@ class History(object):
             return self.oftype(E, ctx["X"])
         if k == "V":
             if "V" not in ctx:
-                ctx["V"] = rnd.choice([BVt(1), BVt(4), BVt(4), BVt(8)])
+                have = sorted(set(self.td(n) for n in E.pool if self.td(n)[0] == "BV"))
+                ctx["V"] = rnd.choice(have) if (have and rnd.random() < 0.7) else rnd.choice([BVt(1), BVt(4), BVt(4), BVt(8)])
             return self.oftype(E, ctx["V"])
         if k == "A":
             n = self.pick(E, lambda n: self.td(n)[0] == "Arr")
@@ -373,8 +399,9 @@ class History(object):
         return out
 
     # ------------------------------------------------------------------ one operation
-    def do(self, E, kind, coq, pytext, thunk, reqkey=None, expect=None, fresh=False):
-        """run one call; expect(result) -> None or complaint text (blueprint read-back)"""
+    def do(self, E, kind, coq, pytext, thunk, reqkey=None, expect=None, fresh=False, denot=None, must=False):
+        """run one call; expect(result) -> None or complaint text (blueprint read-back);
+        denot: every call with this key must return the very same object; must: a documented spelling, must not raise"""
         idx = len(self.reqs)
         self.reqs.append((E.k, coq))
         self.kinds.append(kind)
@@ -387,7 +414,13 @@ class History(object):
             n, err = None, type(ex).__name__
         self.replies.append(None if n is None else n.node_id())
         self.errs.append(err)
-        self.py.append(("%s = %s" % (self.name(E, n), pytext)) if n is not None else ("%s   # raises %s" % (pytext, err)))
+        line = ("%s = %s" % (self.name(E, n), pytext)) if n is not None else ("%s   # raises %s" % (pytext, err))
+        self.py.append("\n".join(self.pre + [line]))
+        self.pre = []
+        if must and n is None:
+            self.complaints.append(("refused:%s" % kind, "the documented spelling %s raised %s" % (pytext[:300], err), idx))
+        if denot is not None and n is not None:
+            self.same_object(E, kind, denot, n, pytext, idx)
         if n is not None and id(n) not in E.pool_ids:
             E.pool.append(n)
             E.pool_ids.add(id(n))
@@ -409,6 +442,69 @@ class History(object):
             if msg:
                 self.complaints.append(("blueprint:%s" % kind, "%s: %s" % (pytext, msg), idx))
         return n
+
+    def same_object(self, E, kind, denot, n, pytext, idx):
+        old = E.denot.get(denot)
+        if old is None:
+            E.denot[denot] = (n, pytext)
+        elif old[0] is not n:
+            self.complaints.append(("spelling:%s" % kind, "%s and %s denote the same %s but are different objects (node_id %d and %d)"
+                                    % (old[1][:200], pytext[:200], kind, old[0].node_id(), n.node_id()), idx))
+
+    def side(self, E, kind, pytext, thunk, denot=None, pick=None, must=True):
+        """a call that must create nothing new (infix / shortcut entry points): not sent to the model - if it did create
+        a node the final tables differ; pick(result) selects the node that has to be the denoted object"""
+        idx = len(self.reqs) - 1
+        before = len(E.m.formulae)
+        try:
+            with warnings.catch_warnings():
+                warnings.simplefilter("ignore")
+                r = thunk()
+            err = None
+        except Exception as ex:   # noqa
+            r, err = None, type(ex).__name__
+        if self.py:
+            self.py[-1] += "\n%s%s" % (pytext, "" if err is None else "   # raises %s" % err)
+        if r is None:
+            if must:
+                self.complaints.append(("refused:%s" % kind, "%s raised %s" % (pytext[:300], err), idx))
+            return None
+        if len(E.m.formulae) != before:
+            self.complaints.append(("spelling:%s" % kind, "%s created %d new node(s) although every part had been built before"
+                                    % (pytext[:300], len(E.m.formulae) - before), idx))
+        if denot is not None:
+            self.same_object(E, kind, denot, pick(r) if pick else r, pytext, idx)
+        return r
+
+    # ------------------------------------------------------------------ environments that come and go
+    def add_env(self):
+        E = EnvState(len(self.envs))
+        self.envs.append(E)
+        self.tainted.append(set())
+        self.lazy.append(E.k)
+        self.pre.append("m%d = Environment().formula_manager" % E.k)
+        return E
+
+    def release(self, E):
+        """the environment goes out of scope: judge its table, keep what the model needs, drop every reference"""
+        self.finish_env(E)
+        E.table_txt, E.addr_txt = self._table_txt(E), self._addr_txt(E)
+        E.nnodes = len(E.m.formulae)
+        nodes = list(E.m.formulae.values())
+        self.keys.forget(nodes)
+        for n in nodes:
+            self.tdm.pop(id(n), None)
+        del nodes
+        wr = weakref.ref(E.env)
+        E.released = True
+        E.env = E.m = None
+        E.pool, E.pool_ids, E.outcomes, E.denot = [], set(), {}, {}
+        import pysmt.environment
+        pysmt.environment.get_env().stc.memoization.clear()      # FNode.get_type()/bv_width() of a Select go through the global environment
+        gc.collect()
+        self.released_n += 1
+        self.collected += wr() is None
+        self.pre.append("for _v in [v for v in list(globals()) if v.startswith('n%d_')]: del globals()[_v]\ndel m%d, _v; gc.collect()" % (E.k, E.k))
 
     # ------------------------------------------------------------------ generators of calls
     def g_symbol(self, E):
@@ -507,7 +603,7 @@ class History(object):
 
     def g_bv(self, E):
         rnd = self.rnd
-        w = rnd.choice([1, 4, 4, 8, 3])
+        w = fresh_int(rnd.choice([1, 4, 4, 8, 3, 4, 8, 64, 257, 300]))
         val = rnd.choice([0, 1, 5, 2 ** w - 1, 2 ** w, -1, 9])
         sp = rnd.choice(["int", "int", "hashb", "bits", "bits_w", "bits_badw", "badstr", "nowidth", "empty", "other", "one", "zero", "sbv", "sbvs"])
         bits = format(val % (2 ** w), "0%db" % w)
@@ -932,15 +1028,40 @@ class History(object):
             memo[n] = (k[0], k[1], tuple(kids))
         return memo[f]
 
-    def g_normalize(self, E):
+    def lookup(self, E, f):
+        """the node of E's table that a native build of f's blueprint inside E denotes (no side effect on the table);
+        None when some part does not exist there"""
+        from pysmt.fnode import FNodeContent
+        memo = {}
+        for n in tocoq.topo([f]):
+            kids = tuple(memo[id(c)] for c in n.args())
+            if any(k is None for k in kids):
+                memo[id(n)] = None
+                continue
+            nt, pay = n.node_type(), n._content.payload
+            if nt == op.SYMBOL:
+                pay = (n.symbol_name(), mkty(E.env, tdesc(n.symbol_type())))
+            elif nt == op.FUNCTION:
+                fn = n.function_name()
+                pay = E.m.formulae.get(FNodeContent(op.SYMBOL, (), (fn.symbol_name(), mkty(E.env, tdesc(fn.symbol_type())))))
+            elif nt in (op.FORALL, op.EXISTS):
+                pay = tuple(E.m.formulae.get(FNodeContent(op.SYMBOL, (), (v.symbol_name(), mkty(E.env, tdesc(v.symbol_type())))))
+                            for v in n.quantifier_vars())
+            elif nt == op.ARRAY_VALUE:
+                pay = mkty(E.env, tdesc(n.array_value_index_type()))
+            memo[id(n)] = E.m.formulae.get(FNodeContent(nt, kids, pay))
+        return memo[id(f)]
+
+    def g_normalize(self, E, Sx=None, f=None):
         rnd = self.rnd
         if E.norm_dirty:
             return None
-        srcs = [X for X in self.envs if X.pool and (X is not E or rnd.random() < 0.1)]
-        if not srcs:
-            return None
-        Sx = rnd.choice(srcs)
-        f = rnd.choice(Sx.pool)
+        if Sx is None:
+            srcs = [X for X in self.envs if not X.released and X.pool and (X is not E or rnd.random() < 0.1)]
+            if not srcs:
+                return None
+            Sx = rnd.choice(srcs)
+            f = rnd.choice(Sx.pool)
         idx = len(self.reqs)
         syms = self.symbols_of(f)
         conflict = any(s.symbol_name() in E.m.symbols and tdesc(E.m.symbols[s.symbol_name()].symbol_type()) != tdesc(s.symbol_type()) for s in syms)
@@ -971,6 +1092,9 @@ class History(object):
                                         % (f.serialize(), n.serialize()), idx))
             else:
                 self.complaints.append(("normalize:copy-differs", "normalize(%s) = %s is not structurally identical" % (f.serialize(), n.serialize()), idx))
+        elif not any(c.is_array_value() for c in tocoq.topo([f])) and self.lookup(E, f) is not n:
+            self.complaints.append(("normalize:not-the-native-node", "normalize(%s) is not the object a native build of the same formula in the "
+                                    "target environment denotes" % f.serialize(), idx))
         for c in tocoq.topo([n]):
             if E.m.formulae.get(c._content) is not c:
                 self.complaints.append(("normalize:foreign-node", "node %s of the copy is not in the target manager's table" % c, idx))
@@ -1010,8 +1134,13 @@ class History(object):
         self.finish()
 
     def finish(self):
-        """whole-table oracle: one object per structure over ALL nodes ever created"""
         for E in self.envs:
+            if not E.released:
+                self.finish_env(E)
+
+    def finish_env(self, E):
+        """whole-table oracle: one object per structure over ALL nodes ever created"""
+        if True:
             seen = {}
             for c, n in E.m.formulae.items():
                 try:
@@ -1033,22 +1162,24 @@ class History(object):
                         self.complaints.append(("child-id", "child id not smaller than parent id", len(self.reqs) - 1))
 
     # ------------------------------------------------------------------ Coq text
+    @staticmethod
+    def _table_txt(E):
+        rows = []
+        for n in sorted(E.m.formulae.values(), key=lambda n: n.node_id()):
+            rows.append("(%s, %s)" % (tocoq.opr(n), cids([c.node_id() for c in n.args()])))
+        return "[%s]" % "; ".join(rows)
+
+    @staticmethod
+    def _addr_txt(E):
+        nodes = sorted(E.m.formulae.values(), key=lambda n: n.node_id())
+        rank = {id(n): r for r, n in enumerate(sorted(nodes, key=id))}
+        return "[0%%Z; %s]" % "; ".join(tocoq.z(rank[id(n)]) for n in nodes)
+
     def tables(self):
-        out = []
-        for E in self.envs:
-            rows = []
-            for n in sorted(E.m.formulae.values(), key=lambda n: n.node_id()):
-                rows.append("(%s, %s)" % (tocoq.opr(n), cids([c.node_id() for c in n.args()])))
-            out.append("[%s]" % "; ".join(rows))
-        return "[%s]" % ";\n    ".join(out)
+        return "[%s]" % ";\n    ".join(E.table_txt if E.released else self._table_txt(E) for E in self.envs)
 
     def addrs(self):
-        out = []
-        for E in self.envs:
-            nodes = sorted(E.m.formulae.values(), key=lambda n: n.node_id())
-            rank = {id(n): r for r, n in enumerate(sorted(nodes, key=id))}
-            out.append("[0%%Z; %s]" % "; ".join(tocoq.z(rank[id(n)]) for n in nodes))
-        return "[%s]" % ";\n    ".join(out)
+        return "[%s]" % ";\n    ".join(E.addr_txt if E.released else self._addr_txt(E) for E in self.envs)
 
     def coq_case(self):
         reqs = ";\n    ".join("(%d, %s)" % (e, r) for e, r in self.reqs)
@@ -1056,8 +1187,9 @@ class History(object):
         return "(%s, %d, %s,\n   [%s],\n   [%s],\n   %s)" % ("true" if self.raw else "false", len(self.envs), self.addrs(), reqs, reps, self.tables())
 
     def script(self, upto=None):
-        hdr = ["from fractions import Fraction", "from pysmt.environment import Environment", "from pysmt.typing import *"]
-        hdr += ["m%d = Environment().formula_manager" % E.k for E in self.envs]
+        hdr = ["import gc", "from fractions import Fraction", "import pysmt.shortcuts, pysmt.environment", "from pysmt.environment import Environment",
+               "from pysmt.typing import *"]
+        hdr += ["m%d = Environment().formula_manager" % E.k for E in self.envs if E.k not in self.lazy]
         body = self.py if upto is None else self.py[:upto + 1]
         return "\n".join(hdr + body)
 
@@ -1106,15 +1238,21 @@ Definition diag (c : case) : nat :=
 """
 
 
-def write_cases(chk, hists, shard=6):
-    files = []
-    for k in range(0, len(hists), shard):
-        text = CASE_HDR + "Definition cases : list case := [\n%s\n].\n" % ";\n".join(h.coq_case() for h in hists[k:k + shard])
+def write_cases(chk, hists, shard=6, weight=450):
+    """consecutive histories per file: at most `shard` of them and about `weight` calls"""
+    files, k = [], 0
+    while k < len(hists):
+        j, wsum = k, 0
+        while j < len(hists) and j - k < shard and (j == k or wsum + len(hists[j].reqs) <= weight):
+            wsum += len(hists[j].reqs)
+            j += 1
+        text = CASE_HDR + "Definition cases : list case := [\n%s\n].\n" % ";\n".join(h.coq_case() for h in hists[k:j])
         text += "Eval vm_compute in mismatches ok cases.\n"
-        p = os.path.join(chk.dir, "cases_hist_%d.v" % (k // shard))
+        p = os.path.join(chk.dir, "cases_hist_%d.v" % len(files))
         with open(p, "w") as f:
             f.write(text)
-        files.append((p, k, len(hists[k:k + shard])))
+        files.append((p, k, j - k))
+        k = j
     return files
 
 
@@ -1126,6 +1264,248 @@ def diagnose(chk, h, tag):
     rc, out = lib.coqc_file(p)
     r = lib.parse_nat_list(out) if rc == 0 else None
     return r[0] if r else None
+
+
+
+WIDTHS = [1, 2, 7, 8, 9, 63, 64, 65, 255, 256, 257, 258, 511, 1000, 4096]
+
+
+def fresh_int(v):
+    """an int object equal to v that is not the interned / constant-folded one"""
+    return int(str(v))
+
+
+def fresh_str(t):
+    return "".join(list(t))
+
+
+def in_env(E, thunk):
+    """run thunk with E.env as the global environment (shortcuts, infix operators)"""
+    import pysmt.environment as pe
+
+    def run():
+        pe.push_env(E.env)
+        try:
+            return thunk()
+        finally:
+            pe.pop_env()
+    return run
+
+
+def cbits(bits):
+    return "[%s]" % "; ".join("true" if c == "1" else "false" for c in bits)
+
+
+def magnitude_history(widths, tier):
+    """every documented spelling of one constant / one payload, at magnitudes beyond CPython's small-int cache (-5..256)
+    and beyond machine words, with arguments computed at run time (equal but not identical objects): one object, same accessors"""
+    import pysmt.shortcuts as sc
+    import pysmt.typing as T
+    h = History(random.Random(7), 1)
+    E = h.envs[0]
+    m = E.m
+    E.env.enable_infix_notation = True
+    h.pre.append("pysmt.environment.push_env(m0.env); m0.env.enable_infix_notation = True")
+    for w in widths:
+        top = 2 ** w
+        values = sorted(set(v for v in (0, 1, top - 1, top // 2, top // 3, 255, 256, 257) if 0 <= v < top))
+        if w >= 511:
+            values = [0, 1, top - 1, top // 3]
+        for v in values:
+            bits = format(v, "0%db" % w)
+            key = ("BV", v, w)
+            wa = fresh_int(w)
+            sv = v - top if v >= top // 2 else v
+            exp = (lambda n, v=v, w=w: None if (n.is_bv_constant() and n.constant_value() == v and n.bv_unsigned_value() == v and n.bv_width() == w
+                                                and n.bv_signed_value() == (v - 2 ** w if v >= 2 ** (w - 1) else v) and tdesc(n.constant_type()) == BVt(w)
+                                                and not n.args()) else "accessors report (%s, %s)" % (n.constant_value(), n.bv_width()))
+            sp = [("RBV (BvInt %s) %s" % (tocoq.z(v), copt(w)), "m0.BV(int('%d'), int('%d'))" % (v, w), lambda v=v, wa=wa: m.BV(fresh_int(v), wa)),
+                  ("RBV (BvBits true %s) None" % cbits(bits), "m0.BV('#b' + format(%d, '0%db'))" % (v, w), lambda bits=bits: m.BV(fresh_str("#b" + bits))),
+                  ("RBV (BvBits false %s) None" % cbits(bits), "m0.BV(format(%d, '0%db'))" % (v, w), lambda bits=bits: m.BV(fresh_str(bits))),
+                  ("RBV (BvBits true %s) %s" % (cbits(bits), copt(w)), "m0.BV('#b' + format(%d, '0%db'), int('%d'))" % (v, w, w),
+                   lambda bits=bits, w=w: m.BV("#b" + bits, fresh_int(w))),
+                  ("RBV (BvBits false %s) %s" % (cbits(bits), copt(w)), "m0.BV(format(%d, '0%db'), int('%d'))" % (v, w, w),
+                   lambda bits=bits, w=w: m.BV(fresh_str(bits), fresh_int(w))),
+                  ("RBV (BvBits true %s) %s" % (cbits(bits), copt(w)), "m0.BV('#b' + format(%d, '0%db'), width=int('%d'))" % (v, w, w),
+                   lambda bits=bits, w=w: m.BV("#b" + bits, width=fresh_int(w))),
+                  ("RSBV (BvInt %s) %s" % (tocoq.z(sv), copt(w)), "m0.SBV(int('%d'), int('%d'))" % (sv, w), lambda sv=sv, w=w: m.SBV(fresh_int(sv), fresh_int(w))),
+                  ("RSBV (BvBits true %s) %s" % (cbits(bits), copt(w)), "m0.SBV('#b' + format(%d, '0%db'), int('%d'))" % (v, w, w),
+                   lambda bits=bits, w=w: m.SBV("#b" + bits, fresh_int(w))),
+                  ("RBV (BvInt %s) %s" % (tocoq.z(v), copt(w)), "pysmt.shortcuts.BV(int('%d'), int('%d'))" % (v, w),
+                   in_env(E, lambda v=v, w=w: sc.BV(fresh_int(v), fresh_int(w)))),
+                  ("RSBV (BvInt %s) %s" % (tocoq.z(sv), copt(w)), "pysmt.shortcuts.SBV(int('%d'), int('%d'))" % (sv, w),
+                   in_env(E, lambda sv=sv, w=w: sc.SBV(fresh_int(sv), fresh_int(w))))]
+            if v == 0:
+                sp.append(("RBV (BvInt 0%%Z) %s" % copt(w), "m0.BVZero(int('%d'))" % w, lambda w=w: m.BVZero(fresh_int(w))))
+            if v == 1:
+                sp.append(("RBV (BvInt 1%%Z) %s" % copt(w), "m0.BVOne(int('%d'))" % w, lambda w=w: m.BVOne(fresh_int(w))))
+            if w >= 511 and tier == "quick" and v not in (top - 1,):
+                sp = sp[:1] + sp[3:5] + sp[6:]                      # keep the case files small: fewer long literals
+            for coq, txt, th in sp:
+                h.do(E, "BV", coq, txt, th, expect=exp, denot=key, must=True)
+        # ---- terms of that width: payloads computed from run-time ints
+        xn = "x%d" % w
+        d = BVt(w)
+        x = None
+        for _ in range(2):
+            x = h.do(E, "Symbol", "RSymbol %s %s" % (tocoq.cstr(xn), cty(d)), "m0.Symbol('x' + str(%d), BVType(int('%d')))" % (w, w),
+                     lambda: m.Symbol(fresh_str("x") + str(w), E.env.type_manager.BVType(fresh_int(w))), denot=("sym", xn), must=True,
+                     expect=lambda n: None if (n.symbol_name() == xn and n.symbol_type().width == w and n.bv_width() == w) else "symbol accessors")
+        if E.env.type_manager.BVType(fresh_int(w)) is not E.env.type_manager.BVType(fresh_int(w)):
+            h.complaints.append(("type-identity", "BVType(%d) twice: two objects" % w, len(h.reqs) - 1))
+        if x is None:
+            continue
+        xid = x.node_id()
+        for (s_, e_) in sorted(set([(0, w - 1), (w - 1, w - 1), (w // 2, w - 1), (0, w // 2)])):
+            key = ("extract", w, s_, e_)
+            chk = (lambda n, s_=s_, e_=e_: None if (n.node_type() == op.BV_EXTRACT and n.arg(0) is x and n.bv_extract_start() == s_ and n.bv_extract_end() == e_
+                                                    and n.bv_width() == e_ - s_ + 1) else "extract accessors")
+            h.do(E, "BVExtract", "RCtor CBvExtract [%d] %s" % (xid, czs([s_, e_])), "m0.BVExtract(n0_%d, int('%d'), int('%d'))" % (xid, s_, e_),
+                 lambda s_=s_, e_=e_: m.BVExtract(x, fresh_int(s_), fresh_int(e_)), expect=chk, denot=key, must=True)
+            h.do(E, "BVExtract", "RCtor CBvExtract [%d] %s" % (xid, czs([s_, e_])), "m0.BVExtract(n0_%d, start=int('%d'), end=int('%d'))" % (xid, s_, e_),
+                 lambda s_=s_, e_=e_: m.BVExtract(x, start=fresh_int(s_), end=fresh_int(e_)), expect=chk, denot=key, must=True)
+            if e_ == w - 1:
+                h.do(E, "BVExtract", "RCtor CBvExtract [%d] %s" % (xid, czs([s_])), "m0.BVExtract(n0_%d, int('%d'))" % (xid, s_),
+                     lambda s_=s_: m.BVExtract(x, fresh_int(s_)), expect=chk, denot=key, must=True)
+            h.side(E, "BVExtract", "n0_%d[int('%d'):int('%d')]" % (xid, s_, e_), in_env(E, lambda s_=s_, e_=e_: x[fresh_int(s_):fresh_int(e_)]), denot=key)
+        for k_ in sorted(set([0, 1, w // 2, w])):
+            for nm, cq, nt in (("BVRol", "CBvRol", op.BV_ROL), ("BVRor", "CBvRor", op.BV_ROR)):
+                for _ in range(2):
+                    h.do(E, nm, "RCtor %s [%d] %s" % (cq, xid, czs([k_])), "m0.%s(n0_%d, int('%d'))" % (nm, xid, k_),
+                         lambda nm=nm, k_=k_: getattr(m, nm)(x, fresh_int(k_)), denot=(nm, w, k_), must=True,
+                         expect=lambda n, nt=nt, k_=k_: None if (n.node_type() == nt and n.arg(0) is x and n.bv_rotation_step() == k_ and n.bv_width() == w) else "rotation accessors")
+        for k_ in (1, 257, 1000):
+            for nm, cq, nt in (("BVZExt", "CBvZext", op.BV_ZEXT), ("BVSExt", "CBvSext", op.BV_SEXT)):
+                for _ in range(2):
+                    h.do(E, nm, "RCtor %s [%d] %s" % (cq, xid, czs([k_])), "m0.%s(n0_%d, int('%d'))" % (nm, xid, k_),
+                         lambda nm=nm, k_=k_: getattr(m, nm)(x, fresh_int(k_)), denot=(nm, w, k_), must=True,
+                         expect=lambda n, nt=nt, k_=k_: None if (n.node_type() == nt and n.arg(0) is x and n.bv_extend_step() == k_ and n.bv_width() == w + k_) else "extension accessors")
+        kk = min(top - 1, 257)
+        c = h.do(E, "BV", "RBV (BvInt %s) %s" % (tocoq.z(kk), copt(w)), "m0.BV(int('%d'), int('%d'))" % (kk, w), lambda: m.BV(fresh_int(kk), fresh_int(w)), must=True)
+        if c is not None:
+            for nm, bop, nt in (("BVLShl", "BLshl", op.BV_LSHL), ("BVLShr", "BLshr", op.BV_LSHR), ("BVAShr", "BAshr", op.BV_ASHR)):
+                key = (nm, w, kk)
+                chk = (lambda n, nt=nt: None if (n.node_type() == nt and n.arg(0) is x and n.arg(1) is c and n._content.payload == (w,) and n.bv_width() == w) else "shift accessors")
+                h.do(E, nm + "_int", "RCtor (CBvShiftInt %s) [%d] %s" % (bop, xid, czs([kk])), "m0.%s(n0_%d, int('%d'))" % (nm, xid, kk),
+                     lambda nm=nm: getattr(m, nm)(x, fresh_int(kk)), expect=chk, denot=key, must=True)
+                h.do(E, nm, "RCtor (CBvBin %s) [%d; %d] []" % (bop, xid, c.node_id()), "m0.%s(n0_%d, n0_%d)" % (nm, xid, c.node_id()),
+                     lambda nm=nm: getattr(m, nm)(x, c), expect=chk, denot=key, must=True)
+            h.side(E, "BVLShl", "n0_%d << int('%d')" % (xid, kk), in_env(E, lambda: x << fresh_int(kk)), denot=("BVLShl", w, kk))
+            a = h.do(E, "BVAdd", "RCtor (CBvNary BAdd) [%d; %d] []" % (xid, c.node_id()), "m0.BVAdd(n0_%d, n0_%d)" % (xid, c.node_id()), lambda: m.BVAdd(x, c),
+                     denot=("BVAdd", w, kk), must=True, expect=lambda n: None if (n._content.payload == (w,) and n.bv_width() == w) else "width payload")
+            h.side(E, "BVAdd", "n0_%d + int('%d')" % (xid, kk), in_env(E, lambda: x + fresh_int(kk)), denot=("BVAdd", w, kk))
+            h.side(E, "BV", "(n0_%d + int('%d')).arg(1)" % (xid, kk), in_env(E, lambda: x + fresh_int(kk)), denot=("BV", kk, w), pick=lambda r: r.arg(1))
+        cc = h.do(E, "BVConcat", "RCtor CBvConcat [%d; %d] []" % (xid, xid), "m0.BVConcat(n0_%d, n0_%d)" % (xid, xid), lambda: m.BVConcat(x, x), must=True,
+                  expect=lambda n: None if (n._content.payload == (2 * w,) and n.bv_width() == 2 * w) else "concat width")
+        for nm, cq in (("BVNot", "(CBvUn BNot)"), ("BVNeg", "(CBvUn BNeg)")):
+            h.do(E, nm, "RCtor %s [%d] []" % (cq, xid), "m0.%s(n0_%d)" % (nm, xid), lambda nm=nm: getattr(m, nm)(x), must=True,
+                 expect=lambda n: None if (n._content.payload == (w,) and n.bv_width() == w) else "width payload")
+    h.finish()
+    return h
+
+
+def scalar_magnitude_history():
+    """Int / Real / String constants and symbol names given as equal-but-not-identical Python objects"""
+    import pysmt.shortcuts as sc
+    import pysmt.typing as T
+    h = History(random.Random(8), 1)
+    E = h.envs[0]
+    m = E.m
+    E.env.enable_infix_notation = True
+    h.pre.append("pysmt.environment.push_env(m0.env); m0.env.enable_infix_notation = True")
+    i0 = h.do(E, "Symbol", "RSymbol %s TInt" % tocoq.cstr("i"), "m0.Symbol('i', INT)", lambda: m.Symbol("i", T.INT), must=True)
+    r0 = h.do(E, "Symbol", "RSymbol %s TReal" % tocoq.cstr("r"), "m0.Symbol('r', REAL)", lambda: m.Symbol("r", T.REAL), must=True)
+    for v in (0, -5, -6, 255, 256, 257, -257, 2 ** 31, 2 ** 63 - 1, 2 ** 63, 2 ** 64 + 1, -(2 ** 64), 10 ** 30, 3 ** 200):
+        chk = (lambda n, v=v: None if (n.is_int_constant() and type(n.constant_value()) is int and n.constant_value() == v and not n.args()) else "Int accessors")
+        for txt, th in (("m0.Int(int('%d'))" % v, lambda v=v: m.Int(fresh_int(v))), ("m0.Int(int('%d'))" % v, lambda v=v: m.Int(fresh_int(v))),
+                        ("pysmt.shortcuts.Int(int('%d'))" % v, in_env(E, lambda v=v: sc.Int(fresh_int(v))))):
+            c = h.do(E, "Int", "RInt (PyInt %s)" % tocoq.z(v), txt, th, expect=chk, denot=("Int", v), must=True)
+        if c is not None and i0 is not None:
+            h.do(E, "Plus", "RCtor CPlus [%d; %d] []" % (i0.node_id(), c.node_id()), "m0.Plus(n0_%d, n0_%d)" % (i0.node_id(), c.node_id()),
+                 lambda: m.Plus(i0, c), denot=("i+", v), must=True)
+            h.side(E, "Plus", "n0_%d + int('%d')" % (i0.node_id(), v), in_env(E, lambda v=v: i0 + fresh_int(v)), denot=("i+", v))
+            h.do(E, "LE", "RCtor (CNode OLe) [%d; %d] []" % (i0.node_id(), c.node_id()), "m0.LE(n0_%d, n0_%d)" % (i0.node_id(), c.node_id()),
+                 lambda: m.LE(i0, c), denot=("i<=", v), must=True)
+            h.side(E, "LE", "n0_%d <= int('%d')" % (i0.node_id(), v), in_env(E, lambda v=v: i0 <= fresh_int(v)), denot=("i<=", v))
+        # ToReal(Int constant) is the Real constant of the same value
+        rc = h.do(E, "Real", "RReal (PyInt %s)" % tocoq.z(v), "m0.Real(int('%d'))" % v, lambda v=v: m.Real(fresh_int(v)), denot=("Real", Fraction(v)), must=True)
+        if c is not None:
+            h.do(E, "ToReal", "RCtor CToReal [%d] []" % c.node_id(), "m0.ToReal(n0_%d)" % c.node_id(), lambda: m.ToReal(c), denot=("Real", Fraction(v)), must=True)
+    for q in (Fraction(257), Fraction(2 ** 64 + 1), Fraction(2 ** 70 + 1, 3), Fraction(1, 257), Fraction(-(10 ** 25), 7 ** 30), Fraction(1, 2), Fraction(3, 2 ** 70)):
+        n_, d_ = q.numerator, q.denominator
+        chk = (lambda n, q=q: None if (n.is_real_constant() and type(n.constant_value()) is Fraction and n.constant_value() == q and not n.args()) else "Real accessors")
+        sp = [("RReal (PyFrac %s %s)" % (tocoq.z(n_), tocoq.z(d_)), "m0.Real(Fraction(int('%d'), int('%d')))" % (n_, d_), lambda: m.Real(Fraction(fresh_int(n_), fresh_int(d_)))),
+              ("RReal (PyFrac %s %s)" % (tocoq.z(n_), tocoq.z(d_)), "m0.Real(Fraction(int('%d'), int('%d')))" % (n_, d_), lambda: m.Real(Fraction(fresh_int(n_), fresh_int(d_)))),
+              ("RReal (PyPair %s %s)" % (tocoq.z(n_), tocoq.z(d_)), "m0.Real((int('%d'), int('%d')))" % (n_, d_), lambda: m.Real((fresh_int(n_), fresh_int(d_)))),
+              ("RReal (PyPair %s %s)" % (tocoq.z(-3 * n_), tocoq.z(-3 * d_)), "m0.Real((int('%d'), int('%d')))" % (-3 * n_, -3 * d_), lambda: m.Real((fresh_int(-3 * n_), fresh_int(-3 * d_)))),
+              ("RReal (PyFrac %s %s)" % (tocoq.z(n_), tocoq.z(d_)), "pysmt.shortcuts.Real(Fraction(int('%d'), int('%d')))" % (n_, d_),
+               in_env(E, lambda: sc.Real(Fraction(fresh_int(n_), fresh_int(d_)))))]
+        if d_ == 1:
+            sp.append(("RReal (PyInt %s)" % tocoq.z(n_), "m0.Real(int('%d'))" % n_, lambda: m.Real(fresh_int(n_))))
+        if Fraction(float(q)) == q:
+            sp.append(("RReal %s" % cpyval(float(q)), "m0.Real(float(Fraction(%d, %d)))" % (n_, d_), lambda: m.Real(float(Fraction(n_, d_)))))
+        c = None
+        for coq, txt, th in sp:
+            c = h.do(E, "Real", coq, txt, th, expect=chk, denot=("Real", q), must=True)
+        if c is not None and r0 is not None:
+            h.do(E, "Plus", "RCtor CPlus [%d; %d] []" % (r0.node_id(), c.node_id()), "m0.Plus(n0_%d, n0_%d)" % (r0.node_id(), c.node_id()),
+                 lambda: m.Plus(r0, c), denot=("r+", q), must=True)
+            h.side(E, "Plus", "n0_%d + Fraction(%d, %d)" % (r0.node_id(), n_, d_), in_env(E, lambda: r0 + Fraction(fresh_int(n_), fresh_int(d_))), denot=("r+", q))
+    for t in ("", "a", "ab257", "x" * 300, "quote\"d", "café"):
+        for _ in range(2):
+            h.do(E, "String", "RString %s" % cpyval(t), "m0.String(''.join(list(%r)))" % t, lambda t=t: m.String(fresh_str(t)), denot=("Str", t), must=True,
+                 expect=lambda n, t=t: None if (n.is_string_constant() and n.constant_value() == t) else "String accessors")
+        h.do(E, "String", "RString %s" % cpyval(t), "pysmt.shortcuts.String(''.join(list(%r)))" % t, in_env(E, lambda t=t: sc.String(fresh_str(t))), denot=("Str", t), must=True)
+    for nm, d in (("v257", I), ("a_long_name_" + "y" * 300, R), ("café", BVt(257)), ("f257", ("Fun", (BVt(257), I), BVt(300))), ("arr", ("Arr", BVt(300), BVt(257)))):
+        for meth in ("Symbol", "get_or_create_symbol", "Symbol"):
+            h.do(E, "Symbol", "RSymbol %s %s" % (tocoq.cstr(nm), cty(d)), "m0.%s(''.join(list(%r)), <%s>)" % (meth, nm, "sort built again"),
+                 lambda nm=nm, d=d, meth=meth: getattr(m, meth)(fresh_str(nm), mkty(E.env, d)), denot=("sym", nm), must=True,
+                 expect=lambda n, nm=nm, d=d: None if (n.symbol_name() == nm and tdesc(n.symbol_type()) == d and m.get_symbol(fresh_str(nm)) is n) else "symbol accessors")
+        h.do(E, "Symbol", "RSymbol %s %s" % (tocoq.cstr(nm), cty(d)), "pysmt.shortcuts.Symbol(''.join(list(%r)), <sort>)" % nm,
+             in_env(E, lambda nm=nm, d=d: sc.Symbol(fresh_str(nm), mkty(E.env, d))), denot=("sym", nm), must=True)
+        if mkty(E.env, d) is not mkty(E.env, d):
+            h.complaints.append(("type-identity", "the sort %s built twice in one type manager gives two objects" % (d,), len(h.reqs) - 1))
+    h.finish()
+    return h
+
+
+WORKER_SORTS = ([BVt(w) for w in (2, 3, 5, 6, 7, 9, 11, 13, 14, 15, 17, 24, 33, 65, 257)]
+                + [("Arr", BVt(a), R) for a in (3, 13, 15)] + [("Arr", I, BVt(b)) for b in (5, 14)]
+                + [("Arr", BVt(13), ("Arr", I, BVt(14))), ("Arr", R, B), ("Arr", BVt(6), BVt(6))]
+                + [("Fun", (R, BVt(3)), I), ("Fun", (BVt(6),), BVt(6)), ("Fun", (I, I), R), ("Fun", (BVt(9),), B)]
+                + [("User", "S%d" % i, ()) for i in range(4)] + [("User", "P", (BVt(5),)), ("User", "P", (R,)), P_QI])
+
+
+def lifetime_history(seed, k, nworkers, ndst):
+    """one (or two alternating) long-lived destination environments; many short-lived source environments with their own
+    non-singleton sorts, each deleted and garbage-collected before the next is created (addresses are reused)"""
+    rnd = random.Random("life:%s:%d" % (seed, k))
+    h = History(rnd, ndst)
+    dsts = list(h.envs)
+    for wk in range(nworkers):
+        Wk = h.add_env()
+        sorts = rnd.sample(WORKER_SORTS, 3) + [I, R, B]
+        for j, d in enumerate(sorts):
+            for c in "uv":
+                nm = "%s%d_%d" % (c, j, wk)
+                t = mkty(Wk.env, d)
+                h.do(Wk, "Symbol", "RSymbol %s %s" % (tocoq.cstr(nm), cty(d)), "m%d.Symbol(%r, %s)" % (Wk.k, nm, t), lambda nm=nm, t=t: Wk.m.Symbol(fresh_str(nm), t),
+                     reqkey=("Symbol", nm, d), must=True)
+        gens = [h.g_plain, h.g_plain, h.g_nary, h.g_not, h.g_derived, h.g_bvop, h.g_function, h.g_function, h.g_quant, h.g_swap, h.g_plain, h.g_array]
+        start = len(h.reqs)
+        tries = 0
+        while len(h.reqs) < start + 9 and tries < 60:
+            tries += 1
+            rnd.choice(gens)(Wk)
+        roots = [n for n in Wk.pool if n.args()] or list(Wk.pool)
+        for f in rnd.sample(roots, min(len(roots), 3)) + rnd.sample(Wk.pool, 2):
+            D = dsts[wk % ndst] if rnd.random() < 0.8 else rnd.choice(dsts)
+            h.g_normalize(D, Wk, f)
+        roots = f = t = D = sorts = None
+        h.release(Wk)
+        Wk = None
+    h.finish()
+    return h
 
 
 DIRECTED = "directed"
@@ -1217,6 +1597,17 @@ def run(tier, only=None):
         for j, h in enumerate(directed_histories()):
             hists.append(h)
             tags.append("%s:%d" % (DIRECTED, j))
+        # magnitude: widths / sizes / indexes / integer payloads beyond the small-int cache and beyond machine words
+        for j, ws in enumerate(([1, 2, 7, 8, 9, 63, 64, 65], [255, 256, 257, 258], [511, 1000], [4096])):
+            hists.append(magnitude_history(ws, tier))
+            tags.append("magnitude:%d" % j)
+        hists.append(scalar_magnitude_history())
+        tags.append("magnitude:scalars")
+        # lifetime: long-lived destination(s), many short-lived garbage-collected sources
+        plan = [(40, 1), (40, 2), (30, 1)] if tier == "quick" else [(60, 1), (60, 2), (45, 1), (45, 2), (30, 1), (30, 2), (60, 1), (50, 2), (40, 1), (40, 2)]
+        for j, (nw, nd) in enumerate(plan):
+            hists.append(lifetime_history(chk.seed, j, nw, nd))
+            tags.append("lifetime:%d" % j)
     for k in (range(nh) if only is None else only):
         if isinstance(k, str):
             continue
@@ -1257,7 +1648,8 @@ def run(tier, only=None):
                               "call": h.py[at] if at is not None and at < len(h.py) else "(replies agree; final tables differ, or a constructor-built node is not copyable)"})
         chk.note("model/implementation disagree in history %s at step %s: %s" % (tags[i], at, disagreements[-1]["call"]))
     chk.cov["correspondence"] = {"histories": len(hists), "calls": sum(len(h.reqs) for h in hists), "calls_raising": nerr,
-                                 "environments": sum(len(h.envs) for h in hists), "nodes_compared": sum(len(E.m.formulae) for h in hists for E in h.envs),
+                                 "environments": sum(len(h.envs) for h in hists), "nodes_compared": sum((E.nnodes if E.released else len(E.m.formulae)) for h in hists for E in h.envs),
+                                 "short_lived_environments": sum(h.released_n for h in hists), "of_which_garbage_collected": sum(h.collected for h in hists),
                                  "by_constructor": hist_kinds, "disagreements": len(bad), "case_file_errors": len(errs), "examples": disagreements}
     chk.sample({"kind": "history", "script_head": hists[-1].script(12)})
     chk.sample({"kind": "oracle", "pairs_checked": "all nodes of every final table by structural key", "complaints": nviol})
@@ -1283,4 +1675,5 @@ def replay(path):
     tag = d.get("history", "")
     if tag.startswith("random:"):
         return run("quick", only=[int(tag.split(":")[1])])
+    # directed / magnitude / lifetime histories are regenerated by every run
     return run("quick")
